@@ -10,7 +10,11 @@ ENTRY = dict(
             "unpacking from the longer buffer returns the value and consumes exactly that many bytes (`Lawful`, Spec/C19.lean); "
             "`le_roundtrip`/`twos_roundtrip`/`int_ranges` give the arithmetic for the eight integer types, `fields_in_sequence` the positioning of a "
             "following field, `bit_value`/`bit_run_values`/`bit_run` the bit-array cursor protocol (DESIGN interpretation), "
-            "`struct_formats_table` re-proves the struct formats read from today's source. The model is tied to data_types.py by running both on "
+            "`struct_formats_table` re-proves the struct formats read from today's source. The data type INSTANCE is in the model (value slot, size slot, "
+            "bit position; construct / pack / unpack / size / value / next): `pack_reflects_last_value`, `size_is_packed_length`, `value_is_last_set`, "
+            "`unpack_then_pack`, `observers_inert` hold for ALL operation sequences of canonical operations on one re-used instance (`good_step`/`good_run` "
+            "invariant, `*_inst_lawful` per class); `var_truncated_witness` records the one non-canonical case where VarBytes/VarString pack a stale length "
+            "prefix; `bit_position_unpack_commute`, `bit_inst_reports`, `bit_constructed_position` make position and content of a bit field independent. The model is tied to data_types.py by running both on "
             "boundary and random values of every type at random offsets with trailing bytes, non-ASCII strings, arbitrary buffers, all 256x8 bit "
             "fields, and random field sequences decoded by RegulatorDataStructure."),
         level_note="Trusted: Lean kernel; struct float<->bits conversion, UTF-8 encode/decode and inet_* text forms are CPython's (round-tripped in the harness, not modelled); model <-> data_types.py tie is differential.",
@@ -19,6 +23,7 @@ ENTRY = dict(
             "reported size = number of packed bytes (sizing in bytes, non-ASCII included)": "theorem",
             "unpacking from a longer buffer consumes exactly size bytes; the following field is positioned by it": "theorem",
             "bit array: value = bit index of the shared byte; a run of k bit fields advances ceil(k/8) bytes (interpretation of DESIGN section 6)": "theorem",
+            "re-used instance: to_bytes = pack of the value constructed / unpacked last, size = its length, for every operation sequence": "theorem (canonical operations: representable values, buffers that start with a packed form)",
             "struct formats / sizes of the ten struct-backed classes": "table",
             "model codecs = data_types.py classes; float<->bits, UTF-8, inet text forms": "correspondence",
         },
